@@ -54,7 +54,9 @@ func factory(tier string) func(string) bfs.System {
 	return func(name string) bfs.System {
 		verifrt.SetMode(verifrt.ModeSeq)
 
-		return &sys{fsName: name, ops: buildOps(tier)}
+		ops := buildOps(tier)
+
+		return &sys{fsName: name, ops: ops, nAt: opsAtLevel(ops, len(tierSegs(tier)))}
 	}
 }
 
@@ -198,12 +200,12 @@ func main() {
 	sort.Slice(all, func(i, j int) bool { return all[i].System < all[j].System })
 
 	var (
-		states, trans, na, spelling int
-		classes                     = map[string]bool{}
-		exh                         = true
-		depthDone                   = d
-		samples                     []any
-		harnessErr                  string
+		states, trans, spelling int
+		classes                 = map[string]bool{}
+		exh                     = true
+		depthDone               = d
+		samples                 []any
+		harnessErr              string
 	)
 
 	for i := range all {
@@ -214,15 +216,9 @@ func main() {
 		}
 
 		states += st.States
-		n := st.Outcomes["n/a"]
-		na += n
-		trans += st.Transitions - n
+		trans += st.Transitions
 
 		for k, c := range st.Outcomes {
-			if k == "n/a" {
-				continue
-			}
-
 			if strings.HasSuffix(k, "|spelling-only") {
 				spelling += c
 				k = strings.TrimSuffix(k, "|spelling-only")
@@ -243,12 +239,11 @@ func main() {
 			samples = append(samples, map[string]any{"system": st.System, "history": s})
 		}
 
-		fmt.Printf("C10 %s: alphabet=%d (level1=%d level2=%d level3=%d) states=%d transitions=%d (+%d n/a) depth_completed=%d/%d exhaustive=%v crashes=%d\n",
-			st.System, len(ops), perLevel[1], perLevel[2], perLevel[3], st.States, st.Transitions-n, n, st.DepthDone, d, st.Exhaustive, st.WorkerCrashes)
+		fmt.Printf("C10 %s: alphabet=%d (level1=%d level2=%d level3=%d) states=%d transitions=%d depth_completed=%d/%d exhaustive=%v crashes=%d\n",
+			st.System, len(ops), perLevel[1], perLevel[2], perLevel[3], st.States, st.Transitions, st.DepthDone, d, st.Exhaustive, st.WorkerCrashes)
 
 		// the per-class outcome table is large: keep only its size in the evidence
-		st.Outcomes = map[string]int{"distinct_classes": len(st.Outcomes), "not_applicable_skipped": n}
-		st.Transitions -= n
+		st.Outcomes = map[string]int{"distinct_classes": len(st.Outcomes)}
 	}
 
 	if len(samples) == 0 {
@@ -305,7 +300,6 @@ func main() {
 			"samples":                samples,
 			"exhaustive":             exh,
 			"bound":                  bound,
-			"not_applicable_skipped": na,
 			"systems":                all,
 			"known_findings_matched": append([]string{}, rep.KnownMatched()...),
 			"violation_instances":    rep.Total,
@@ -334,8 +328,8 @@ func main() {
 		}
 	}
 
-	fmt.Printf("C10 summary: tier=%s states=%d transitions=%d (n/a skipped %d) distinct_classes=%d bound=%d completed=%d exhaustive=%v violation_instances=%d new_signatures=%d wall=%.1fs\n",
-		*tier, states, trans, na, len(classes), d, depthDone, exh, rep.Total, rep.NewCount(), ev.Elapsed())
+	fmt.Printf("C10 summary: tier=%s states=%d transitions=%d distinct_classes=%d bound=%d completed=%d exhaustive=%v violation_instances=%d new_signatures=%d wall=%.1fs\n",
+		*tier, states, trans, len(classes), d, depthDone, exh, rep.Total, rep.NewCount(), ev.Elapsed())
 
 	os.Exit(code)
 }
